@@ -1194,6 +1194,7 @@ type Bit struct {
 	desc       string
 	ref        string
 	Position   int
+	posSet     bool // a position statement was given, 0 included
 	extensions []*Extension
 }
 
